@@ -51,3 +51,35 @@ def ob_sql_replace(p0: bool, t0: int, g0: int, p1: bool, t1: int, g1: int, p2: b
     return "ok"
 
 
+
+
+@obligation(funcs=["storage.db.DBStorage.add_event", "storage.db.DBStorage.pre_save"], timeout=(200, 900),
+            bounds="three versions of one replaceable address (kind 10002, or kind 30023 with equal d) arriving in any order with "
+                   "symbolic timestamps 1..200, plus (for kind 30023) a newer event under another d value; symbolic SELECT order: "
+                   "after every arrival no stored version is older than another stored version of the same address")
+def ob_sql_three_versions(t0: int, t1: int, t2: int, param: bool, rev: bool, other_newer: bool) -> str:
+    """
+    pre: 1 <= t0 <= 200 and 1 <= t1 <= 200 and 1 <= t2 <= 200
+    pre: param or not other_newer
+    post: _.startswith("ok")
+    """
+    logging.disable(logging.CRITICAL)
+    st = S.make_store(reverse_order=rev)
+    kind = 30023 if param else 10002
+    tags = [["d", "a"]] if param else []
+    if other_newer:
+        S.drive(st.add_event(S.evj(4, False, kind, 250, [["d", "ab"]])))
+    removed_any = False
+    for (i, t) in ((0, t0), (1, t1), (2, t2)):
+        pre = S.rows(st)
+        new = S.evj(i, False, kind, t, [list(x) for x in tags])
+        try:
+            _, changed = S.drive(st.add_event(dict(new)))
+        except Exception as e:
+            return "version %d refused: %r" % (i, e)
+        post = S.rows(st)
+        err = effects.check_add(pre, new, post, accepted_means_stored=bool(changed), ephemeral_stored_ok=True)
+        if err:
+            return err + " (timestamps %d,%d,%d)" % (t0, t1, t2)
+        removed_any = removed_any or len(post) <= len(pre)
+    return "ok" if removed_any else "ok-nothing-replaced"
